@@ -471,6 +471,12 @@ fn main() {
                 let st = vx_core::explore_dfs(&d, mixed::scenario);
                 rep.violations.extend(st.violations);
                 rep.add_part(st.part);
+                // UDP: payloads that do not fit the path's MTU are rejected, never sent
+                let mut d = vx_core::DfsConfig::new("udp-payload-vs-path-mtu", 0);
+                d.wall = wall;
+                let st = vx_core::explore_dfs(&d, mixed::udp_scenario);
+                rep.violations.extend(st.violations);
+                rep.add_part(st.part);
             }
             rep.finish();
         }
@@ -601,6 +607,19 @@ fn replay(path: &str) {
         for l in ch.describe() {
             println!("  choice {l}");
         }
+        match e.violation {
+            Some(v) => {
+                println!("VIOLATION clause={} : {}", v.clause, v.detail);
+                std::process::exit(1);
+            }
+            None => println!("no violation on this execution"),
+        }
+        return;
+    }
+    if prop == "C16" && scenario.starts_with("c16-udp") {
+        println!("replaying {prop}: {scenario}");
+        let mut ch = vx_core::Chooser::from_choices(&choices);
+        let e = mixed::udp_scenario(&mut ch);
         match e.violation {
             Some(v) => {
                 println!("VIOLATION clause={} : {}", v.clause, v.detail);
